@@ -286,6 +286,50 @@ class Gen:
                 out.append(("A", self.var(eapi), self.toks(st)))
         return out
 
+    def solo_case(self):
+        """>= 2 eclasses (flat inherit line, nested chain, or both) set exactly ONE accumulated variable and no
+        other variable is touched anywhere: a separator / emptiness test that looks at a neighbouring variable
+        or accumulator glues or drops tokens here"""
+        rng = self.rng
+        eapi = 8 if rng.random() < 0.5 else rng.randrange(9)
+        v = rng.choice([x for x in range(9) if not (x == 1 and eapi < 4) and not (x == 5 and eapi < 7)
+                        and not (x == 6 and eapi < 8)])
+        st = {"t": 1}
+
+        def val(k=None):
+            n = k or rng.choice((1, 1, 2))
+            out = list(range(st["t"], st["t"] + n))
+            st["t"] += n
+            return out
+        necl = rng.choice((2, 2, 3, 4))
+        shape = rng.choice(("flat", "chain", "mixed"))
+        ecl = {}
+        for j in range(1, necl + 1):
+            ops = [(rng.choice(("A", "A", "P")), v, val())]
+            if rng.random() < 0.3:
+                ops.append(("P", v, val()))
+            if rng.random() < 0.2:
+                ops.append(("F", rng.choice(FUNCS), rng.random() < 0.3))
+            ecl[j] = ops
+        if shape == "flat":
+            inh = [("I", list(range(1, necl + 1)))] if rng.random() < 0.6 else [("I", [j]) for j in range(1, necl + 1)]
+        elif shape == "chain":
+            for j in range(1, necl):
+                ecl[j].insert(rng.randint(0, len(ecl[j])), ("I", [j + 1]))
+            inh = [("I", [1])]
+        else:
+            ecl[1].insert(rng.randint(0, len(ecl[1])), ("I", [necl]))
+            inh = [("I", list(range(1, necl)))]
+        eb = list(inh)
+        r = rng.random()
+        if r < 0.4:
+            eb.insert(0, ("A", v, val()))
+        elif r < 0.7:
+            eb.append((rng.choice(("A", "P")), v, val()))
+        if rng.random() < 0.3:
+            eb.append(("P", v, val()))
+        return {"eapi": eapi, "ebuild": eb, "ecl": ecl}
+
     def case(self, unset_acc=False, eapi=None):
         rng = self.rng
         st = {"t": 1}
@@ -646,6 +690,12 @@ def fixed_cases():
                 (F, "pkg_pretend", False), (F, "src_prepare", False)]},
             "ebuild": [(A, 0, [1]), (A, 2, [2]), (A, 8, [3]), (I, [1]), (A, 13, [4]), (Pp, 2, [5]), (A, 7, [6]), (A, 9, [7]),
                        (A, 1, [8]), (A, 5, [9]), (A, 6, [30]), (A, 4, [31])]})
+    # one case per accumulated variable (indices 9..17): ONLY that variable is ever set - by the ebuild, by two
+    # eclasses of one inherit line and by a nested pair - so nothing else can lend it a separator
+    for v in range(9):
+        out.append({"eapi": 8, "ecl": {1: [(A, v, [10])], 2: [(A, v, [11, 12])], 3: [(A, v, [13]), (I, [4]), (Pp, v, [14])],
+                                       4: [(A, v, [15])]},
+                    "ebuild": [(A, v, [1]), (I, [1, 2]), (I, [3]), (Pp, v, [2])]})
     # RDEPEND default boundary: unset / empty / set after inherit
     for eapi in (3, 4):
         out.append({"eapi": eapi, "ecl": {1: [(A, 2, [5]), (A, 3, [6])]}, "ebuild": [(A, 2, [1, 2]), (I, [1])]})
@@ -691,7 +741,7 @@ def main(chk: Check):
         return ok
 
     env_n = os.environ.get("VERIF_C49_CASES")
-    n_daemon = chk.n(4, 120)      # random cases also run through the real daemon (after the fixed ones)
+    n_daemon = chk.n(3, 120)      # random cases also run through the real daemon (after the fixed ones)
     n_direct = chk.n(60, 1200)    # random cases run through the directly driven bash functions
     if env_n:
         n_daemon, n_direct = (int(x) for x in env_n.split(","))
@@ -699,10 +749,10 @@ def main(chk: Check):
     cases = fixed_cases()
     nfixed = len(cases)
     for k in range(n_direct):
-        cases.append(g.case(unset_acc=(k % 8 == 7)))
+        cases.append(g.solo_case() if k % 4 == 1 else g.case(unset_acc=(k % 8 == 7)))
     # quick: the nine per-EAPI "everything once" cases + the two known-finding shapes + a few random ones go
     # through the real daemon (a daemon round trip costs seconds on a loaded machine); thorough: all fixed + 120
-    fixed_d = list(range(nfixed)) if ((chk.thorough or chk.fingerprint_changed) and not env_n) else list(range(9)) + [nfixed - 4, nfixed - 3, nfixed - 2, nfixed - 1]
+    fixed_d = list(range(nfixed)) if ((chk.thorough or chk.fingerprint_changed) and not env_n) else list(range(9)) + [9 + 6, 9 + chk.seed % 6] + [nfixed - 4, nfixed - 3, nfixed - 2, nfixed - 1]
     daemon_idx = fixed_d + list(range(nfixed, min(len(cases), nfixed + n_daemon)))
     if env_n and n_daemon == 0:
         daemon_idx = []
